@@ -125,3 +125,51 @@ def intersect(h, n=3, k1=2, k2=2, broadcast="elementwise", composite=False):
             h.holds("rows independent (expected dimension)", _any([x != 0 for x in mins]))
         else:
             h.holds("rows independent (expected dimension)", max(abs(x) for x in mins) > 1e-9)
+
+
+def eigen(h, d=2, which='eigenvector'):
+    """eigenvector(lambda) / eigenvector(None) / diagonalize() of T = C diag(lambda) C^-1 with the nondeterministic eigen stub
+    (arbitrary eigenvalue order, arbitrary eigenvector scale of norm in [1/2, 2])"""
+    from .c15 import _EigStub, _with_eig
+    C = h.arr('C', (d, d))
+    h.assume(_det(C) != 0, 'independent eigenvectors')
+    lam = [h.var(f"l{i}") for i in range(d)]
+    for i in range(d):
+        h.assume(lam[i] != 0, 'invertible transformation')
+        h.assume(lam[i] * lam[i] < 10000, 'bounded eigenvalues')
+        for j in range(i + 1, d):
+            df = lam[i] - lam[j]
+            h.assume(df * df > 0.01, 'eigenvalues separated (np.isclose tolerance)')
+    D = np.zeros((d, d), dtype=object if h.is_sym() else float)
+    for i in range(d):
+        D[i, i] = lam[i]
+    Mc = C @ D @ np.linalg.inv(C)                       # acts on column vectors
+    T = projective.Transformation(Mc.copy(), column_vectors=True)
+    evecs = [C[:, k] for k in range(d)]
+    with _with_eig(h, _EigStub(h, lam, evecs)):
+        if which == 'eigenvector':
+            for k in range(d):
+                v = T.eigenvector(eigenvalue=lam[k])
+                h.proj_eq(f"eigenvector({k}) is the eigenvector of lambda_{k}", v.proj_data, evecs[k], nonzero=False)
+                h.eq(f"T @ v = lambda_{k} v", (T @ v).proj_data, lam[k] * v.proj_data, validate=False)
+                h.holds(f"eigenvector({k}) is non-zero", _any([x != 0 for x in v.proj_data]) if h.is_sym() else bool(np.abs(v.proj_data).max() > 1e-9))
+        elif which == 'any':
+            v = T.eigenvector()
+            img = (T @ v).proj_data
+            cr = [img[i] * v.proj_data[j] - img[j] * v.proj_data[i] for i in range(d) for j in range(i + 1, d)]
+            h.eq("T @ v is a multiple of v", np.array(cr, dtype=object if h.is_sym() else float), 0, validate=False)
+            h.holds("non-zero", _any([x != 0 for x in v.proj_data]) if h.is_sym() else bool(np.abs(v.proj_data).max() > 1e-9))
+        elif which == 'missing':
+            mu = h.var('mu')
+            for i in range(d):
+                df = mu - lam[i]
+                h.assume(df * df > 0.01, 'not an eigenvalue')
+            h.raises("a value that is not an eigenvalue is rejected", (GeometryError,), lambda: T.eigenvector(eigenvalue=mu))
+        else:
+            M, Minv = T.diagonalize(return_inv=True)
+            G = (Minv @ T @ M).proj_data
+            off = [G[i, j] for i in range(d) for j in range(d) if i != j]
+            h.eq("M^-1 T M is diagonal", np.array(off, dtype=object if h.is_sym() else float), 0, validate=False)
+            h.eq("M.inv() is the inverse", (Minv @ M).proj_data, np.diag([1] * d), validate=False)
+            M2 = T.diagonalize()
+            h.eq("diagonalize() without inverse returns the same frame", M2.proj_data, M.proj_data, validate=False)
